@@ -112,6 +112,20 @@ def run_mix_job(job):
         except Exception as e:   # noqa: BLE001
             raised = type(e).__name__
         events.append({'id': f"{job['prefix']}:{ci}", 'kind': 'mix', 'ua': ua, 'ub': ub, 'op': op, 'raised': raised})
+        # the same mixed call again once both algebras have GENERATED the operator for exactly these key patterns (the
+        # compatibility check must guard every call, not only code generation)
+        if len(A) == len(B):
+            try:
+                K.apply_op(op, [x, K.mv_from(A, kb, [7, 11, 13][:len(kb)])], [])
+                K.apply_op(op, [K.mv_from(B, ka, [2, 3, 5][:len(ka)]), y], [])
+            except Exception:   # noqa: BLE001  (e.g. a division by a null element: the cache may still be cold, the check is then as before)
+                pass
+            raised = ''
+            try:
+                K.apply_op(op, [x, y], [])
+            except Exception as e:   # noqa: BLE001
+                raised = type(e).__name__
+            events.append({'id': f"{job['prefix']}:{ci}w", 'kind': 'mix', 'ua': ua, 'ub': ub, 'op': op, 'raised': raised})
     K.write_trace(job['out'], {'kind': 'cfg', 'u': job['cases'][0][0], 'opts': {'cse': True, 'graded': False, 'wrapper': False, 'symbolcls': '', 'pretty_blade': ''}}, events)
     return {'out': job['out'], 'events': len(events), 'skipped': []}
 
